@@ -1797,6 +1797,9 @@ class Node(SimComponent, ABC):
             if self.software_manager.software.get(application_name):
                 self.sys_log.info(f"Can't install {application_name}. It's already installed.")
                 return RequestResponse(status="success", data={"reason": "already installed"})
+            if application_name not in Application._registry:
+                self.sys_log.warning(f"Can't install {application_name}. It is not a known application.")
+                return RequestResponse(status="failure", data={"reason": f"unknown application {application_name}"})
             application_class = Application._registry[application_name]
             self.software_manager.install(application_class)
             application_instance = self.software_manager.software.get(application_name)
